@@ -311,17 +311,26 @@ func (l *Lexer) readHTML() string {
 	position := l.position
 
 	for l.ch != 0 {
-		if l.ch == '\\' && l.prevChar() == '\\' && l.peekChar() == '<' {
-			// escape escaping
-			l.readChar()
-			x := l.input[position : l.position-1]
-			return x
-		}
+		if l.ch == '\\' {
+			// look at the whole run of backslashes and at what follows it
+			start := l.position
+			for l.ch == '\\' {
+				l.readChar()
+			}
 
-		// allow for expression escaping using \<% foo %>
-		if l.ch == '\\' && l.peekChar() == '<' {
-			l.readChar()
-			l.readChar()
+			if l.ch == '<' && l.peekChar() == '%' {
+				if l.position-start == 1 {
+					// allow for expression escaping using \<% foo %>
+					l.readChar()
+					l.readChar()
+					continue
+				}
+
+				// escape escaping: \\<% is a backslash followed by a live tag
+				return strings.Replace(l.input[position:l.position-1], "\\<%", "<%", -1)
+			}
+
+			continue
 		}
 
 		if l.ch == '<' && l.peekChar() == '%' {
